@@ -337,7 +337,14 @@ fn eval_loc_expr(
                     }
                 }
             }
-            //collected.dedup();
+            // a step selects a set of nodes: a node reached from several context nodes is kept
+            // once, otherwise the list multiplies with every step (`a/../a/../a/..`); a node
+            // without an order key of its own (key 0) is left alone
+            let mut set = HashSet::new();
+            collected.retain(|v| {
+                let order = v.order();
+                order == 0 || set.insert(order)
+            });
             nodes = collected;
         }
     }
